@@ -45,13 +45,13 @@ type sentenceResult struct {
 	// CtxErrWentBack: online monotonicity monitor - the context's furthest error position decreased during the parse
 	CtxErrWentBack string
 	ctxErrPos      int
-	RootEnds     map[int]bool // ends of the alternatives the root returned at offset 0
-	Node         parsley.Node
-	Value        interface{}
-	Err          error
-	Budget       string
-	Bound        *gram.BoundViolation
-	Panic        string
+	RootEnds       map[int]bool // ends of the alternatives the root returned at offset 0
+	Node           parsley.Node
+	Value          interface{}
+	Err            error
+	Budget         string
+	Bound          *gram.BoundViolation
+	Panic          string
 }
 
 // concatInterp evaluates every child and concatenates what it gets; bound to every sequence node
